@@ -75,6 +75,7 @@ structure ScopeCtor where
   recursiveTable : FieldOrigin
   recursiveTmpView : FieldOrigin
   recursiveCount : FieldOrigin
+  recursionRoot : FieldOrigin
   deriving Repr, DecidableEq
 
 /-- the scope a constructor with these origins derives (a field that is not inherited is lost; `fresh` nodes =
@@ -85,7 +86,8 @@ def deriveBy (o : ScopeCtor) (defined : List String) (s : NameScope) : NameScope
     working := (match o.recursiveTmpView with | .inherited => s.working | _ => none),
     ctes := (match o.nodes with | .inherited => s.ctes | .fresh => defined ++ s.ctes | .zero => []),
     temps := (match o.blocks with | .zero => [] | _ => s.temps),
-    limitCount := (match o.recursiveCount with | .inherited => s.limitCount | _ => 0) }
+    limitCount := (match o.recursiveCount with | .inherited => s.limitCount | _ => 0),
+    root := (match o.recursionRoot with | .inherited => s.root | _ => false) }
 
 /-- math.Floor(float64(a) / float64(b)) for positive ints below 2^53 -/
 def floorDivI (a b : Int) : Int := a / b
